@@ -152,3 +152,132 @@ def annex_and_ext(ex, n):
         leaf = _hashes.tagged_hash(b"TapLeaf", bytes([stack[rest - 1][0] & 0xFE]) + ref.ser_string(stack[rest - 2]))
         claims["ext_is_leaf_hash_keyversion_codesep"] = ext == leaf + b"\x00\xff\xff\xff\xff"
     return claims
+
+
+# ------------------------------------------------------------------ digests computed through a PSBT
+from btclib.psbt import psbt as _psbt
+from btclib.psbt.psbt import Psbt
+from btclib.psbt.psbt_in import PsbtIn
+from btclib.psbt.psbt_out import PsbtOut
+
+_XG = bytes.fromhex("79be667ef9dcbbac55a06295ce870b07029bfcdb2dce28d959f2815b16f81798")
+_VALID_HT = (0, 1, 2, 3, 0x81, 0x82, 0x83)
+
+
+@ob("C09", "psbt_taproot_digest_is_the_direct_one", quick=[dict(nin=n, own=o, arg=a, leaf=l) for n in (1, 2) for o in (0, 1) for a in (0, 1) for l in (0, 1) if (n + o + a + l) % 2 == 0 or n == 1],
+    thorough=[dict(nin=n, own=o, arg=a, leaf=l) for n in (1, 2, 3) for o in (0, 1) for a in (0, 1) for l in (0, 1)],
+    bound="a version 0 PSBT with 1..3 taproot inputs (utxo amounts, sequences, lock time, version symbolic) and one output; the input's own PSBT_IN_SIGHASH_TYPE absent or symbolic over the seven valid types, "
+          "the hash_type argument absent or symbolic over the seven valid types (0 included), key path and script path (symbolic leaf hash): psbt.taproot_sig_hash equals sig_hash.taproot on the "
+          "unsigned transaction with the argument when given, else the input's own type, else SIGHASH_DEFAULT",
+    stubs=_STUBS, functions=["btclib.psbt.psbt.taproot_sig_hash", "btclib.psbt.psbt._taproot_sig_hash", "btclib.script.sig_hash.taproot"], min_ok=1, timeout=600)
+def psbt_taproot_digest(ex, nin, own, arg, leaf):
+    from sx import instr
+    if not ex.concrete:
+        instr.HASH_INJECTIVE = True
+    version = ex.int("version", 1, 0xFFFFFFFF)
+    lock = ex.int("lock", 0, 0xFFFFFFFF)
+    ins, spent = [], []
+    for i in range(nin):
+        amt = ex.int(f"amt{i}", 0, 2_100_000_000_000_000 // 4)
+        spk = b"\x51\x20" + _XG
+        seq_ = ex.int(f"seq{i}", 0, 0xFFFFFFFF)
+        utxo = TxOut(amt, spk, check_validity=False)
+        spent.append(utxo)
+        ins.append((OutPoint(bytes([0x10 + i]) * 32, i, check_validity=False), seq_, utxo))
+    tx = Tx(version, lock, [TxIn(op, b"", s, Witness(), check_validity=False) for op, s, _ in ins], [TxOut(1000, b"\x51\x20" + _XG, check_validity=False)], check_validity=False)
+    p = Psbt.from_tx(tx, check_validity=False)
+    for k, (_, _, utxo) in enumerate(ins):
+        p.inputs[k].witness_utxo = utxo
+    own_ht = None
+    if own:
+        own_ht = ex.int("own_ht", 0, 0x83)
+        ex.assume(sor(*[own_ht == v for v in _VALID_HT]))
+        p.inputs[0].sig_hash_type = own_ht
+    arg_ht = None
+    if arg:
+        arg_ht = ex.int("arg_ht", 0, 0x83)
+        ex.assume(sor(*[arg_ht == v for v in _VALID_HT]))
+    leaf_hash = (ex.bytes("lh", 2) + b"\x66" * 30) if leaf else b""
+    if arg:
+        effective = arg_ht
+    elif own:
+        effective = own_ht
+    else:
+        effective = 0
+    ext = (leaf_hash + b"\x00" + (0xFFFFFFFF).to_bytes(4, "little")) if leaf else b""
+    try:
+        got = _psbt.taproot_sig_hash(p, 0, leaf_hash=leaf_hash, hash_type=arg_ht)
+    except BTClibValueError:
+        try:
+            sig_hash.taproot(tx, 0, spent, effective, int(bool(leaf)), b"", ext)
+        except BTClibValueError:
+            return ex.refuse("BTClibValueError")
+        return {"refused_although_the_direct_computation_answers": False}
+    want = sig_hash.taproot(tx, 0, spent, effective, int(bool(leaf)), b"", ext)
+    return {"psbt_digest_is_the_direct_digest": got == want}
+
+
+@ob("C09", "psbt_ecdsa_digest_is_the_direct_one", quick=[dict(kind=k, own=o, arg=a) for k in ("p2wpkh", "p2wsh", "p2pkh") for o in (0, 1) for a in (0, 1)],
+    bound="a version 0 PSBT with two inputs of the named kind (amounts, sequences, lock time, version symbolic): psbt.ecdsa_sig_hash equals sig_hash.segwit_v0 / sig_hash.legacy on the unsigned "
+          "transaction with the script code of that kind and the argument's hash type when given, else the input's own, else SIGHASH_ALL",
+    stubs=_STUBS, functions=["btclib.psbt.psbt.ecdsa_sig_hash"], min_ok=1, timeout=600)
+def psbt_ecdsa_digest(ex, kind, own, arg):
+    from sx import instr
+    if not ex.concrete:
+        instr.HASH_INJECTIVE = True
+    version = ex.int("version", 1, 0xFFFFFFFF)
+    lock = ex.int("lock", 0, 0xFFFFFFFF)
+    h20 = b"\x31" * 20
+    wscript = b"\x51"
+    ins = []
+    for i in range(2):
+        amt = ex.int(f"amt{i}", 0, 2_100_000_000_000_000 // 4)
+        ins.append((OutPoint(bytes([0x20 + i]) * 32, i, check_validity=False), ex.int(f"seq{i}", 0, 0xFFFFFFFF), amt))
+    tx = Tx(version, lock, [TxIn(op, b"", s, Witness(), check_validity=False) for op, s, _ in ins], [TxOut(1000, b"\x51\x20" + _XG, check_validity=False)], check_validity=False)
+    p = Psbt.from_tx(tx, check_validity=False)
+    for k, (op, s, amt) in enumerate(ins):
+        if kind == "p2wpkh":
+            p.inputs[k].witness_utxo = TxOut(amt, b"\x00\x14" + h20, check_validity=False)
+        elif kind == "p2wsh":
+            p.inputs[k].witness_utxo = TxOut(amt, b"\x00\x20" + _hashes.sha256(wscript), check_validity=False)
+            p.inputs[k].witness_script = wscript
+        else:
+            prev = Tx(2, 0, [TxIn(OutPoint(b"\x09" * 32, 0, check_validity=False), b"\x51", 0xFFFFFFFF, Witness(), check_validity=False)],
+                      [TxOut(7, b"\x51", check_validity=False)] * k + [TxOut(5000 + k, b"\x76\xa9\x14" + h20 + b"\x88\xac", check_validity=False)], check_validity=False)
+            p.inputs[k].non_witness_utxo = prev
+    own_ht = arg_ht = None
+    valid = (1, 2, 3, 0x81, 0x82, 0x83)
+    if own:
+        own_ht = ex.int("own_ht", 1, 0x83)
+        ex.assume(sor(*[own_ht == v for v in valid]))
+        p.inputs[0].sig_hash_type = own_ht
+    if arg:
+        arg_ht = ex.int("arg_ht", 1, 0x83)
+        ex.assume(sor(*[arg_ht == v for v in valid]))
+    effective = arg_ht if arg else (own_ht if own else 1)
+    if kind == "p2pkh":
+        # the psbt's transaction spends output k of `prev`: rebuild with the right outpoints
+        return _psbt_legacy(ex, p, tx, h20, effective, arg_ht)
+    try:
+        got = _psbt.ecdsa_sig_hash(p, 0, hash_type=arg_ht)
+    except BTClibValueError:
+        return ex.refuse("BTClibValueError")
+    code = (b"\x76\xa9\x14" + h20 + b"\x88\xac") if kind == "p2wpkh" else wscript
+    want = sig_hash.segwit_v0(code, tx, 0, effective, ins[0][2])
+    return {"psbt_digest_is_the_direct_digest": got == want}
+
+
+def _psbt_legacy(ex, p, tx, h20, effective, arg_ht):
+    # a legacy input must name the txid of its non_witness_utxo: rebuild the unsigned transaction over the real ids
+    prevs = [i.non_witness_utxo for i in p.inputs]
+    tx2 = Tx(tx.version, tx.lock_time, [TxIn(OutPoint(prevs[k].id, k, check_validity=False), b"", tx.vin[k].sequence, Witness(), check_validity=False) for k in range(2)], tx.vout, check_validity=False)
+    q = Psbt.from_tx(tx2, check_validity=False)
+    for k in range(2):
+        q.inputs[k].non_witness_utxo = prevs[k]
+        q.inputs[k].sig_hash_type = p.inputs[k].sig_hash_type
+    try:
+        got = _psbt.ecdsa_sig_hash(q, 0, hash_type=arg_ht)
+    except BTClibValueError:
+        return ex.refuse("BTClibValueError")
+    want = sig_hash.legacy(b"\x76\xa9\x14" + h20 + b"\x88\xac", tx2, 0, effective)
+    return {"psbt_digest_is_the_direct_digest": got == want}
